@@ -426,6 +426,7 @@ static void run_case(int k, const Case& cs)
         }
         std::unique_ptr<TModel::StandardMultiHostPool> multi;
         std::unique_ptr<PestHostTable<TModel::StandardSingleHostPool>> pht;
+        std::unique_ptr<PestHostTable<TModel::StandardSingleHostPool>> decoy_pht;
         std::unique_ptr<CompetencyTable<TModel::StandardSingleHostPool>> comp;
         std::unique_ptr<Treatments<TModel::StandardSingleHostPool, DR>> treatments;
         std::unique_ptr<SpreadRateAction<TModel::StandardMultiHostPool, int>> spread_rate;
@@ -443,6 +444,25 @@ static void run_case(int k, const Case& cs)
                 }
                 else
                     pht.reset(new PestHostTable<TModel::StandardSingleHostPool>(config, model->environment()));
+                // a pool can be given another table at any time: first a decoy table (other
+                // susceptibilities, rates and lags) is set and used once, then the real one
+                decoy_pht.reset(new PestHostTable<TModel::StandardSingleHostPool>(model->environment()));
+                for (size_t hi = 0; hi < pool_ptrs.size(); ++hi)
+                    decoy_pht->add_host_info(hi % 2 ? 0.0 : 0.03125, hi % 2 ? 1.0 : 0.0, (int)(hi % 2));
+                multi->set_pest_host_table(*decoy_pht);
+                for (auto* hp : pool_ptrs) {
+                    bool done = false;
+                    for (int r = 0; r < rows && !done; ++r)
+                        for (int c = 0; c < cols && !done; ++c)
+                            if (model->environment().total_population_at(r, c) > 0) {
+                                try {
+                                    (void)hp->suitability_at(r, c);
+                                }
+                                catch (const std::exception&) {
+                                }
+                                done = true;
+                            }
+                }
                 multi->set_pest_host_table(*pht);
             }
             if (!comp_rows.empty()) {
